@@ -157,23 +157,21 @@ def normalizeFn (τ : Ty) (D : Poly) (c : Rat) : Except Err Poly :=
     if m = 0 then .error .zerodiv
     else normLoop τ (c / m) [] D
 
-/-- `for k in self: self[k] *= mult` — iteration over the *live* dict: CPython raises
-`RuntimeError: dictionary changed size during iteration` at the next step when an assignment
-removed (value became 0) or added an entry. -/
-def iterScale (sq : Sq) (p : Poly) (ks : List Key) (mult : Rat) : Except Err Poly :=
-  match ks with
-  | [] => .ok p
-  | k :: r => do
-    let p' ← mulItem sq p k mult
-    if p'.length ≠ p.length then .error .other else iterScale sq p' r mult
-
 /-- the method `DictArithmetic.normalize(self, value)` (in place; the new state is returned):
-`if self:` guards the empty dict. -/
+```
+if self:
+    mult = value / max(abs(v) for v in self.values())
+    for k in tuple(self.keys()):
+        self[k] *= mult
+```
+`if self:` guards the empty dict; the loop runs over a *snapshot* of the keys (`scaleKeys`,
+`Qv.Model.Arith`), each step being `self[k] = self[k] * mult` through the type's
+`__getitem__`/`__setitem__`. -/
 def normalizeM (κ : Kind) (D : Poly) (c : Rat) : Except Err Poly :=
   if D.isEmpty then .ok D
   else
     let m := maxAbs D
     if m = 0 then .error .zerodiv
-    else iterScale (squash κ) D (D.map Prod.fst) (c / m)
+    else scaleKeys (squash κ) D (D.map Prod.fst) (c / m)
 
 end Qv
